@@ -8,8 +8,8 @@
    exceeds the threshold, (e) one of the furthest points with the last (the incumbent) excluded by the loop bound, or
    (f) any point inside soft_restart, where the incumbent is saved first (C04_incumbent_saved_before_soft_restart). *)
 From Coq Require Import ZArith List Bool String Lia.
-Require Import DV.Lib.Tables.
-From G Require Import Gen_tables.
+Require Import DV.Base.Prelude DV.Spec.Schema DV.Lib.MGeom DV.Lib.Tables.
+From G Require Import Gen_util Gen_model Gen_controller Gen_tables.
 Import ListNotations.
 Open Scope Z_scope.
 Open Scope string_scope.
@@ -63,8 +63,41 @@ Definition distances_read_clipped_points : bool :=
   vals_in "Model.distances_to_xopt" "xopt" ["self.xopt()"] &&
   existsb (fun r => streq (r_func r) "Model.xopt" && slist_eq (r_vals r) ["self.xpt(self.kopt, abs_coordinates=abs_coordinates)"]) T_returns &&
   Z.eqb (count_true (fun r => streq (r_func r) "Model.xopt") T_returns) 1.
+(* (b) proved on the regenerated selection loop itself (translator: gen.derive_chooser takes the loop of choose_point_to_replace
+   verbatim, with what lagrange_gradient returned as parameters cs, gs): for every state, step, Lagrange data and arithmetic, the
+   slot it returns is a valid index and, with skip_kopt, is not the incumbent's; the loop does not touch the state *)
+Section Chooser.
+Context `{A : Arith}.
+Definition chosen_ok (st : controller_state) (skip : bool) (i : Z) (c : option Z * option T) : Prop :=
+  match fst c with Some k => 0 <= k < i /\ (skip = true -> k <> kopt (c_model st)) | None => True end.
+Theorem Slots_chooser_never_selects_the_incumbent : forall st d skip cs gs st' r,
+  py_controller_choose_point_loop st d skip cs gs = Ok (st', r) ->
+  st' = st /\ match r with Some k => 0 <= k < py_model_npt (c_model st) /\ (skip = true -> k <> kopt (c_model st)) | None => True end.
+Proof.
+  intros st d skip cs gs st' r H. unfold py_controller_choose_point_loop in H. cbv zeta in H.
+  match type of H with bind (@for_loop ?C ?l ?b ?c0) _ = _ => destruct (@for_loop C l b c0) as [c'|] eqn:El; [|discriminate] end.
+  cbn [bind] in H. destruct c' as [knew scaden]. injection H as <- <-. split; [reflexivity|].
+  unfold rangeZ in El. set (n := py_model_npt (c_model st)) in *.
+  destruct (Z_le_gt_dec 0 n) as [Hn|Hn].
+  2:{ replace (Z.to_nat (n - 0)) with O in El by lia. cbn in El. injection El as <- _. exact I. }
+  match type of El with for_loop _ ?b _ = _ =>
+    destruct (for_rangeN_inv (chosen_ok st skip) (fun _ => False) b 0 (Z.to_nat (n - 0)) 0 (None, None) (knew, scaden) ltac:(lia)) as [[]|HP]; auto end.
+  - intros i c c1 Hi HP Hb. destruct c as [kn sc]. unfold chosen_ok in *. cbn [fst] in *.
+    destruct (skip && (i =? kopt (c_model st))%Z) eqn:Es.
+    + injection Hb as <-. cbn [fst]. destruct kn as [k|]; auto. destruct HP; split; auto; lia.
+    + match type of Hb with bind (if ?c then _ else _) _ = _ => destruct c end; cbn [bind] in Hb; injection Hb as <-; cbn [fst].
+      * split; [lia|]. intros ->. cbn [andb] in Es. apply Z.eqb_neq in Es. exact Es.
+      * destruct kn as [k|]; auto. destruct HP; split; auto; lia.
+  - intros i c c1 Hi HP Hb. destruct c as [kn sc].
+    destruct (skip && (i =? kopt (c_model st))%Z); [discriminate|].
+    match type of Hb with bind (if ?c then _ else _) _ = _ => destruct c end; cbn [bind] in Hb; discriminate.
+  - exact I.
+  - unfold chosen_ok in HP. cbn [fst] in HP. destruct knew as [k|]; auto. destruct HP; split; auto; lia.
+Qed.
+End Chooser.
 Theorem Slots_overwritten_slot_is_not_the_incumbent :
   change_sites_ok && growing_slot_ok && tr_slot_ok && chooser_skips_incumbent && geometry_callers_ok && distances_read_clipped_points = true.
 Proof. vm_compute. reflexivity. Qed.
 
 Print Assumptions Slots_overwritten_slot_is_not_the_incumbent.
+Print Assumptions Slots_chooser_never_selects_the_incumbent.
